@@ -354,22 +354,26 @@ def fAbs (v : Value) : Outcome :=
 
 /-- `filters::round`; `x` is the receiver already converted to `f64`.  `10.0_f64.powi(precision)`
 is a normal float exactly for `-307 ≤ precision ≤ 308` (else `inf`, `0` or subnormal: the
-`!multiplier.is_normal()` error of the F15 fix).  With `precision == 0` the multiplier is `1.0`,
-`multiplier * val` is `val`, and a non-finite `val` is returned as it is *before* the method is
-looked at.  Other precisions go through two float roundings which no property fixes to the bit:
-left to the harness's tolerance oracle (`unmodelled`). -/
+`!multiplier.is_normal()` error of the F15 fix, which comes first).  Then
+`match (method, scaled)`: a method other than `ceil` / `floor` is an error for every value;
+`scaled = None` (`multiplier * val` not finite) gives the value back.  With `precision == 0` the
+multiplier is `1.0` and `scaled` is `val` when finite.  Other precisions go through two float
+roundings which no property fixes to the bit: left to the harness's tolerance oracle
+(`unmodelled`, once the method is known to be valid). -/
 def fRound (x : F64) (kw : Kwargs) : Outcome :=
   ofExcept (kwGet strFromValue kw "method") fun method =>
   ofExcept (kwGet (intFromValue I32_MIN I32_MAX) kw "precision") fun prec =>
   let p := prec.getD 0
   if p ≠ 0 ∧ ¬ (-307 ≤ p ∧ p ≤ 308) then .err .msg
-  else if p ≠ 0 then .unmodelled
-  else if !x.isFinite then .ok (.f64 x)
   else match method with
-    | none => .ok (.f64 x.roundF)
+    | none =>
+      if p ≠ 0 then .unmodelled
+      else if !x.isFinite then .ok (.f64 x) else .ok (.f64 x.roundF)
     | some m =>
-      if m = "ceil".toList then .ok (.f64 x.ceilF)
-      else if m = "floor".toList then .ok (.f64 x.floorF)
+      if m = "ceil".toList then
+        (if p ≠ 0 then .unmodelled else if !x.isFinite then .ok (.f64 x) else .ok (.f64 x.ceilF))
+      else if m = "floor".toList then
+        (if p ≠ 0 then .unmodelled else if !x.isFinite then .ok (.f64 x) else .ok (.f64 x.floorF))
       else .err .msg
 
 def fDefault (v : Value) (kw : Kwargs) : Outcome :=
